@@ -374,6 +374,7 @@ class RefClient:
 
     def renamescript(self, oldname, newname):
         self._need_auth()
+        oldname.encode("utf-8"), newname.encode("utf-8")      # a name that cannot be sent is refused before the first command
         if "VERSION" in self._caps:
             return self._cmd(b"RENAMESCRIPT", oldname.encode("utf-8"), newname.encode("utf-8"))[0] == b"OK"
         listing = self.listscripts()
@@ -393,3 +394,21 @@ class RefClient:
         if not self.deletescript(oldname):
             return False
         return True
+
+
+def _refusing(meth):
+    def wrapped(self, *a, **k):
+        try:
+            return meth(self, *a, **k)
+        except (UnicodeEncodeError, OverflowError) as e:
+            raise Error("cannot encode argument: %s" % e)
+        except ValueError as e:
+            if "integer string conversion" in str(e) or "encode" in str(e):
+                raise Error("cannot encode argument: %s" % e)
+            raise
+    wrapped.__name__ = meth.__name__
+    return wrapped
+
+
+for _n in ("havespace", "getscript", "putscript", "checkscript", "deletescript", "setactive", "renamescript"):
+    setattr(RefClient, _n, _refusing(getattr(RefClient, _n)))
